@@ -173,7 +173,7 @@ Proof.
   - rewrite IH. destruct (hit lgs w k sl); [reflexivity|]. reflexivity.
 Qed.
 
-Lemma lastw_ext lgs lgs' bf k sl : (forall k, lgs k = lgs' k) -> lastw lgs bf k sl = lastw lgs' bf k sl.
+Lemma lastw_ext lgs lgs' bf k sl : lgs k = lgs' k -> lastw lgs bf k sl = lastw lgs' bf k sl.
 Proof.
   intros E. induction bf as [|h r IH]; cbn; auto. rewrite IH.
   destruct (lastw lgs' r k sl); auto. unfold hit. destruct h; auto. rewrite E. reflexivity.
@@ -356,11 +356,11 @@ Qed.
 
 Lemma tclause_frame x V' T :
   arrs V' = arrs (vw x) -> cur V' = cur (vw x) ->
-  (top V' = top (vw x) \/ (top (vw x) < top V' /\ t T <= top (vw x))) ->
+  (top V' = top (vw x) \/ (top (vw x) < top V' /\ (pc T = TArr \/ pc T = TGet -> t T <= top (vw x)))) ->
   tclause x T -> tclause (quiet x V') T.
 Proof.
   intros Ea Ec Ht. unfold tclause, agree. cbn [quiet vw marrs buf]. rewrite Ea, Ec.
-  destruct (pc T); auto; destruct Ht as [->|[H1 H2]]; auto; intros; lia.
+  destruct (pc T); auto; destruct Ht as [->|[H1 H2]]; auto; intros; exfalso; assert (t T <= top (vw x)) by auto; lia.
 Qed.
 
 (* thread states / top change, the owner's stored locations do not *)
@@ -405,3 +405,326 @@ Qed.
 
 Lemma Ls_lkind0 s : lkind (pc (thr s 0%nat)) = 0%nat -> Ls s = bot s /\ Lc s = bot s.
 Proof. intros K. unfold Ls, Lc. rewrite K. auto. Qed.
+
+Lemma in_app_one {A} (l : list A) (w x : A) : In x (l ++ [w]) -> In x l \/ x = w.
+Proof. intros H. apply in_app_or in H. destruct H as [H|[H|[]]]; auto. Qed.
+
+(* the owner's steps *)
+Lemma tstep_tinv_owner x : Inv (vw x) -> TInv x -> TInv (tstep true x 0%nat).
+Proof.
+  intros I TI. unfold tstep. cbv zeta.
+  pose proof (i_loc _ I 0%nat) as LT. unfold local_ok, lok in LT.
+  pose proof (i_cur _ I) as Icur.
+  assert (OT : forall u, u <> 0%nat -> thr (fst (step (vw x) 0%nat)) u = thr (vw x) u)
+    by (intros; apply step_thr_other; auto).
+  remember (fst (step (vw x) 0%nat)) as V' eqn:HV'.
+  destruct (pc (thr (vw x) 0%nat)) eqn:Hpc; cbv iota.
+  all: try (apply drained_tinv; fail).
+  all: try (destruct (step_quiet (vw x) 0%nat) as (Q1 & Q2 & Q3 & Q4 & Q5); [rewrite Hpc; reflexivity|];
+            rewrite <- HV' in *; apply tinv_quiet; auto; fail).
+  all: unfold step in HV'; rewrite Hpc in HV'.
+  - (* UArr *)
+    destruct LT as (L1 & L2 & L3).
+    destruct (b (thr (vw x) 0%nat) - t (thr (vw x) 0%nat) >=? asize (arrs (vw x) (cur (vw x))) - 1) eqn:G;
+      cbn [fst] in HV'.
+    + (* grow: fresh array in view and in memory *)
+      set (n := S (narr (vw x))) in *.
+      assert (En : narr V' = n) by (rewrite HV'; reflexivity).
+      assert (Ea : arrs V' = upd (arrs (vw x)) n (fresh (S (lg (arrs (vw x) (cur (vw x))))))) by (rewrite HV'; reflexivity).
+      assert (Eb : bot V' = bot (vw x)) by (rewrite HV'; reflexivity).
+      assert (Ec : cur V' = cur (vw x)) by (rewrite HV'; reflexivity).
+      assert (Et : top V' = top (vw x)) by (rewrite HV'; reflexivity).
+      rewrite En. replace (n =? narr (vw x))%nat with false by (symmetry; apply Nat.eqb_neq; unfold n; lia).
+      assert (NP : forall j v, ~ In (WEl n j v) (buf x)).
+      { intros j v Hin. pose proof (t_rng x TI n j v Hin). unfold n in *. lia. }
+      constructor; cbn [vw mbot marrs buf].
+      * intros k. rewrite Ea. destruct (Nat.eq_dec k n) as [->|Hne]; [rewrite !upd_same; reflexivity|].
+        rewrite !upd_other by auto. apply TI.
+      * intros k sl. rewrite Ea. destruct (Nat.eq_dec k n) as [->|Hne].
+        -- rewrite !upd_same. rewrite lastw_none; [reflexivity|]. intros j v Hin. exfalso. apply (NP j v Hin).
+        -- rewrite !upd_other by auto.
+           rewrite (lastw_ext _ (fun k => lg (arrs (vw x) k))) by (cbv beta; rewrite upd_other by auto; reflexivity).
+           apply TI.
+      * intros k j v Hin. pose proof (t_rng x TI k j v Hin). rewrite Ec, En. unfold n. lia.
+      * rewrite Eb. apply TI.
+      * rewrite Eb, Ec. apply TI.
+      * intros u Hu. rewrite OT by auto. pose proof (t_thf x TI u Hu) as F.
+        pose proof (i_loc _ I u) as LU. unfold local_ok, lok in LU.
+        unfold tclause, agree in *. cbn [vw mbot marrs buf]. rewrite Ea, Ec, Et.
+        destruct (pc (thr (vw x) u)); auto.
+        -- rewrite !upd_other by (unfold n; lia). exact F.
+        -- destruct LU as (U1 & U2 & U3 & U4). rewrite !upd_other by (unfold n; lia). exact F.
+    + (* no growth *)
+      assert (En : narr V' = narr (vw x)) by (rewrite HV'; reflexivity).
+      rewrite En, Nat.eqb_refl. fold (quiet x V').
+      apply tinv_quiet; auto; rewrite HV'; try reflexivity;
+        try (intros u Hu; cbn [thr set_thr]; apply upd_other; auto).
+  - (* UGWr: buffered store into the array being filled *)
+    destruct LT as (G & L1 & L2). destruct G as (G1 & G2 & G3 & G4 & G5 & G6 & G7 & G8 & G9).
+    cbn [fst] in HV'.
+    set (T := thr (vw x) 0%nat) in *.
+    assert (Ea : arrs V' = upd (arrs (vw x)) (na T) (put (arrs (vw x) (na T)) (i T) (rv T))) by (rewrite HV'; reflexivity).
+    assert (Eb : bot V' = bot (vw x)) by (rewrite HV'; reflexivity).
+    assert (Ec : cur V' = cur (vw x)) by (rewrite HV'; reflexivity).
+    assert (Et : top V' = top (vw x)) by (rewrite HV'; reflexivity).
+    assert (En : narr V' = narr (vw x)) by (rewrite HV'; reflexivity).
+    constructor; cbn [buffered vw mbot marrs buf].
+    + intros k. rewrite Ea. destruct (Nat.eq_dec k (na T)) as [->|Hne]; [rewrite upd_same; cbn [lg put]; apply TI|].
+      rewrite upd_other by auto. apply TI.
+    + intros k sl. rewrite lastw_app1.
+      rewrite (lastw_ext _ (fun k => lg (arrs (vw x) k)))
+        by (cbv beta; rewrite Ea; destruct (Nat.eq_dec k (na T)) as [->|Hne]; [rewrite upd_same|rewrite upd_other by auto]; reflexivity).
+      unfold hit. rewrite Ea. destruct (Nat.eqb_spec (na T) k) as [<-|Hne]; cbn [andb].
+      * rewrite upd_same. cbn [lg put dat]. unfold updZ, slot, asize.
+        rewrite (Z.eqb_sym sl). destruct (Z.eqb_spec (i T mod 2 ^ Z.of_nat (lg (arrs (vw x) (na T)))) sl); [reflexivity|].
+        apply TI.
+      * rewrite upd_other by auto. apply TI.
+    + intros k j v Hin. apply in_app_one in Hin. rewrite Ec, En. destruct Hin as [Hin|E]; [apply (t_rng x TI k j v Hin)|].
+      inversion E; subst. lia.
+    + rewrite Eb, vbot_app_el. apply TI.
+    + rewrite Eb, Ec. apply bwf_app_el; [apply TI|]. intros E. exfalso. lia.
+    + intros u Hu. rewrite OT by auto. pose proof (t_thf x TI u Hu) as F.
+      pose proof (i_loc _ I u) as LU. unfold local_ok, lok in LU.
+      unfold tclause, agree in *. cbn [buffered vw mbot marrs buf]. rewrite Ea, Ec, Et.
+      destruct (pc (thr (vw x) u)); auto.
+      * rewrite !upd_other by lia. intros E1 E2. destruct (F E1 E2) as [F1 F2]. split; auto.
+        intros j v Hin. apply in_app_one in Hin. destruct Hin as [Hin|E]; [eauto|]. inversion E; subst. exfalso. lia.
+      * destruct LU as (U1 & U2 & U3 & U4). rewrite !upd_other by lia.
+        intros E1. destruct (F E1) as [F1 F2]. split; auto.
+        intros E' j v Hin. apply in_app_one in Hin. destruct Hin as [Hin|E]; [eauto|]. inversion E; subst. exfalso. lia.
+  - (* UPut: buffered store of the pushed element *)
+    assert (K0 : lkind (pc (thr (vw x) 0%nat)) = 0%nat) by (rewrite Hpc; reflexivity).
+    destruct (Ls_lkind0 _ K0) as [ELs ELc].
+    destruct LT as (L1 & L2 & L3 & L4). cbn [fst] in HV'.
+    set (T := thr (vw x) 0%nat) in *.
+    assert (Ea : arrs V' = upd (arrs (vw x)) (a T) (put (arrs (vw x) (a T)) (b T) (arg T))) by (rewrite HV'; reflexivity).
+    assert (Eb : bot V' = bot (vw x)) by (rewrite HV'; reflexivity).
+    assert (Ec : cur V' = cur (vw x)) by (rewrite HV'; reflexivity).
+    assert (Et : top V' = top (vw x)) by (rewrite HV'; reflexivity).
+    assert (En : narr V' = narr (vw x)) by (rewrite HV'; reflexivity).
+    rewrite L3 in *. set (C := arrs (vw x) (cur (vw x))) in *.
+    assert (GO : forall j, top (vw x) <= j < bot (vw x) -> get (put C (b T) (arg T)) j = get C j)
+      by (intros j Hj; apply get_put_other; lia).
+    constructor; cbn [buffered vw mbot marrs buf].
+    + intros k. rewrite Ea. destruct (Nat.eq_dec k (cur (vw x))) as [->|Hne]; [rewrite upd_same; cbn [lg put]; apply TI|].
+      rewrite upd_other by auto. apply TI.
+    + intros k sl. rewrite lastw_app1.
+      rewrite (lastw_ext _ (fun k => lg (arrs (vw x) k)))
+        by (cbv beta; rewrite Ea; destruct (Nat.eq_dec k (cur (vw x))) as [->|Hne]; [rewrite upd_same|rewrite upd_other by auto]; reflexivity).
+      unfold hit. rewrite Ea. destruct (Nat.eqb_spec (cur (vw x)) k) as [<-|Hne]; cbn [andb].
+      * rewrite upd_same. cbn [lg put dat]. unfold updZ, slot, asize. fold C.
+        rewrite (Z.eqb_sym sl). destruct (Z.eqb_spec (b T mod 2 ^ Z.of_nat (lg C)) sl); [reflexivity|].
+        apply TI.
+      * rewrite upd_other by auto. apply TI.
+    + intros k j v Hin. apply in_app_one in Hin. rewrite Ec, En. destruct Hin as [Hin|E]; [apply (t_rng x TI k j v Hin)|].
+      inversion E; subst. lia.
+    + rewrite Eb, vbot_app_el. apply TI.
+    + rewrite Eb, Ec. apply bwf_app_el; [apply TI|]. intros _. rewrite <- (t_bot x TI). lia.
+    + intros u Hu. rewrite OT by auto. pose proof (t_thf x TI u Hu) as F.
+      pose proof (i_loc _ I u) as LU. unfold local_ok, lok in LU. rewrite ELs in LU.
+      unfold tclause, agree in *. cbn [buffered vw mbot marrs buf]. rewrite Ea, Ec, Et.
+      destruct (pc (thr (vw x) u)); auto.
+      * destruct LU as (U1 & U2). intros E1 E2. destruct (F E1 E2) as [F1 F2]. specialize (U2 E1 E2). split.
+        -- rewrite upd_same. rewrite GO by lia. exact F1.
+        -- intros j v Hin. apply in_app_one in Hin. destruct Hin as [Hin|E]; [eauto|]. inversion E; subst. lia.
+      * destruct LU as (U1 & U2 & U3 & U4). intros E1. destruct (F E1) as [F1 F2]. destruct (U4 E1) as [U5 U6]. split.
+        -- destruct (Nat.eq_dec (a (thr (vw x) u)) (cur (vw x))) as [Ea'|Hne].
+           ++ rewrite Ea' in *. rewrite upd_same. rewrite GO by lia. exact F1.
+           ++ rewrite upd_other by auto. exact F1.
+        -- intros E' j v Hin. apply in_app_one in Hin. destruct Hin as [Hin|E]; [eauto|]. inversion E; subst. lia.
+  - (* USt *)
+    destruct LT as (L1 & L2 & L3 & L4 & L5). cbn [fst] in HV'.
+    apply tinv_bot_store; auto; try (rewrite HV'; reflexivity); try (rewrite HV'; cbn [bot]; lia); try lia.
+  - (* OEmp *)
+    destruct LT as (L1 & L2 & L3 & L4). cbn [fst] in HV'.
+    apply tinv_bot_store; auto; try (rewrite HV'; reflexivity); try (rewrite HV'; cbn [bot]; lia); try lia.
+  - (* OFixW *)
+    destruct LT as (L1 & L2 & L3 & L4). cbn [fst] in HV'.
+    apply tinv_bot_store; auto; try (rewrite HV'; reflexivity); try (rewrite HV'; cbn [bot]; lia); try lia.
+  - (* OFixL *)
+    destruct LT as (L1 & L2 & L3 & L4). cbn [fst] in HV'.
+    apply tinv_bot_store; auto; try (rewrite HV'; reflexivity); try (rewrite HV'; cbn [bot]; lia); try lia.
+Qed.
+
+(* a thief's step: only its own thread state and possibly top change *)
+Lemma tinv_thief_upd x V' u T' : Inv (vw x) -> TInv x -> u <> 0%nat ->
+  arrs V' = arrs (vw x) -> bot V' = bot (vw x) -> cur V' = cur (vw x) -> narr V' = narr (vw x) ->
+  thr V' = upd (thr (vw x)) u T' ->
+  (top V' = top (vw x) \/ top (vw x) < top V') ->
+  tclause (quiet x V') T' -> TInv (quiet x V').
+Proof.
+  intros I TI Hu Ea Eb Ec En Eth Ht CT. apply tinv_thr; auto.
+  intros v Hv. rewrite Eth. destruct (Nat.eq_dec v u) as [->|Hne].
+  - rewrite upd_same. exact CT.
+  - rewrite upd_other by auto. apply tclause_frame; auto.
+    + destruct Ht as [Ht|Ht]; [left; auto|right; split; auto].
+      pose proof (i_loc _ I v) as LV. unfold local_ok, lok in LV.
+      intros [E|E]; rewrite E in LV; tauto.
+    + apply (t_thf x TI v Hv).
+Qed.
+
+Lemma tclause_trivial x T : pc T <> TArr -> pc T <> TGet -> tclause x T.
+Proof. intros H1 H2. unfold tclause. destruct (pc T); auto; congruence. Qed.
+
+Lemma next_op_tclause x T : tclause x (next_op T).
+Proof. apply tclause_trivial; destruct (next_op_pc T) as [E|[E|[E|E]]]; rewrite E; discriminate. Qed.
+
+Lemma tstep_tinv_thief x n : Inv (vw x) -> TInv x -> TInv (tstep true x (S n)).
+Proof.
+  intros I TI. unfold tstep. cbv zeta. set (u := S n).
+  assert (Hu : u <> 0%nat) by (unfold u; discriminate).
+  pose proof (i_loc _ I u) as LU. unfold local_ok, lok in LU.
+  pose proof (proj1 (i_thief _ I u Hu)) as Hp.
+  destruct (pc (thr (vw x) u)) eqn:Hpc; cbn in Hp; try contradiction; cbv iota.
+  - (* TTop *)
+    unfold step. rewrite Hpc. cbn [fst].
+    eapply tinv_thief_upd; eauto; try reflexivity; try (apply tclause_trivial; cbn; discriminate).
+  - (* TBot: bottom is read from memory *)
+    eapply tinv_thief_upd; eauto; try reflexivity.
+    unfold tclause, agree. cbn [quiet vw marrs buf set_thr cur top arrs pc t b mk].
+    intros E1 E2.
+    assert (PB : forall j v, In (WEl (cur (vw x)) j v) (buf x) -> mbot x <= j <= bot (vw x))
+      by (intros j v Hin; eapply bwf_in; [apply (t_bwf x TI)|exact Hin]).
+    split.
+    + apply (agree_no_pending x _ _ TI). intros j v Hin. destruct (PB j v Hin) as [P1 P2].
+      unfold slot. apply zmod_neq; [apply asize_pos|lia|].
+      pose proof (i_cap _ I). pose proof (bot_le_Lc (vw x)). lia.
+    + intros j v Hin. destruct (PB j v Hin). lia.
+  - (* TArr *)
+    unfold step. rewrite Hpc. destruct LU as (U1 & U2).
+    pose proof (t_thf x TI u Hu) as F. unfold tclause in F. rewrite Hpc in F.
+    destruct (Z.leb_spec (b (thr (vw x) u) - t (thr (vw x) u)) 0); cbn [fst].
+    + eapply tinv_thief_upd; eauto; try reflexivity; try apply next_op_tclause.
+    + eapply tinv_thief_upd; eauto; try reflexivity.
+      unfold tclause, agree in *. cbn [quiet vw marrs buf set_thr cur top arrs pc t b a mk].
+      intros E1. destruct (F E1 ltac:(lia)) as [F1 F2]. split; auto.
+  - (* TGet: the element is read from memory *)
+    eapply tinv_thief_upd; eauto; try reflexivity; try (apply tclause_trivial; cbn; discriminate).
+  - (* TCas *)
+    unfold step. rewrite Hpc.
+    destruct (Z.eqb_spec (top (vw x)) (t (thr (vw x) u))) as [E|E]; cbn [fst].
+    + eapply tinv_thief_upd; eauto; try reflexivity; try apply next_op_tclause; try (right; cbn [top]; lia).
+    + eapply tinv_thief_upd; eauto; try reflexivity; try apply next_op_tclause.
+  - (* Fin *)
+    unfold step. rewrite Hpc. cbn [fst].
+    apply tinv_quiet; auto.
+Qed.
+
+Lemma tstep_tinv x u : Inv (vw x) -> TInv x -> TInv (tstep true x u).
+Proof. destruct u; [apply tstep_tinv_owner|apply tstep_tinv_thief]. Qed.
+
+(* ------------------------------------------------------------------ *)
+(* the view keeps the SC invariant and the history invariant            *)
+Lemma vw_flush x : vw (flush x) = vw x.
+Proof. unfold flush. destruct (buf x) as [|[w|k j v] r]; reflexivity. Qed.
+
+Lemma vw_tstep x u :
+  (u = 0%nat \/ (pc (thr (vw x) u) <> TBot /\ pc (thr (vw x) u) <> TGet)) ->
+  vw (tstep true x u) = fst (step (vw x) u).
+Proof.
+  intros H. unfold tstep. cbv zeta. destruct u as [|n].
+  - destruct (pc (thr (vw x) 0%nat)); reflexivity.
+  - destruct H as [H|[H1 H2]]; [discriminate|].
+    destruct (pc (thr (vw x) (S n))); try reflexivity; congruence.
+Qed.
+
+Lemma linv_eta p0 z B : B = base z -> LInv p0 z ->
+  LInv p0 {| base := B; plog := plog z; slog := slog z; olog := olog z |}.
+Proof. intros ->. destruct z; auto. Qed.
+
+Lemma linv_private p0 z u T' : LInv p0 z -> u <> 0%nat ->
+  lkind (pc T') = lkind (pc (thr (base z) u)) -> pc (thr (base z) u) <> OFixW -> pc T' <> OFixW ->
+  Inv (set_thr (base z) u T') ->
+  LInv p0 {| base := set_thr (base z) u T'; plog := plog z; slog := slog z; olog := olog z |}.
+Proof.
+  intros [I C S P] Hu K H1 H2 I'. destruct (private_effect (base z) u T' K H1 H2) as [E1 E2].
+  constructor; cbn [base plog slog olog]; auto.
+  - intros v. rewrite E1, E2. apply C.
+  - rewrite E2. exact S.
+  - cbn [thr set_thr]. rewrite upd_other by auto. exact P.
+Qed.
+
+Lemma lstep_nolog z u : pc (thr (base z) u) = TBot \/ pc (thr (base z) u) = TGet ->
+  plog (lstep z u) = plog z /\ slog (lstep z u) = slog z /\ olog (lstep z u) = olog z.
+Proof. intros [H|H]; unfold lstep; rewrite H; auto. Qed.
+
+Lemma tlstep_linv p0 y u : LInv p0 (iv y) -> TInv (tb y) -> LInv p0 (iv (tlstep true y u)).
+Proof.
+  intros L TI. pose proof (l_inv _ _ L) as I. cbn [iv base] in I.
+  unfold tlstep, iv. cbn [tb tpl tsl tol]. fold (iv y).
+  destruct (Nat.eq_dec u 0%nat) as [->|Hu].
+  { apply linv_eta; [rewrite lstep_erase; apply vw_tstep; auto | apply linv_step; exact L]. }
+  pose proof (i_loc _ I u) as LU. unfold local_ok, lok in LU.
+  pose proof (t_thf _ TI u Hu) as F. unfold tclause in F.
+  destruct (pc (thr (vw (tb y)) u)) eqn:Hpc.
+  all: try (apply linv_eta; [rewrite lstep_erase; apply vw_tstep; right; rewrite Hpc; split; discriminate | apply linv_step; exact L]; fail).
+  - (* TBot *)
+    destruct (lstep_nolog (iv y) u) as (E1 & E2 & E3); [left; exact Hpc|]. rewrite E1, E2, E3.
+    assert (Ev : vw (tstep true (tb y) u) =
+                 set_thr (base (iv y)) u (mk TArr (mbot (tb y)) (t (thr (vw (tb y)) u)) (a (thr (vw (tb y)) u))
+                    (na (thr (vw (tb y)) u)) (i (thr (vw (tb y)) u)) (arg (thr (vw (tb y)) u)) (rv (thr (vw (tb y)) u))
+                    (prog (thr (vw (tb y)) u)) (opi (thr (vw (tb y)) u)))).
+    { unfold tstep. destruct u; [congruence|]. cbv zeta. rewrite Hpc. reflexivity. }
+    rewrite Ev. apply linv_private; auto; cbn [iv base pc mk]; try (rewrite Hpc; discriminate); try discriminate;
+      try (rewrite Hpc; reflexivity).
+    apply local_step; auto.
+    + rewrite Hpc. reflexivity.
+    + intros _. split; [exact Logic.I|]. cbn [prog mk]. apply steals_of; auto.
+    + unfold local_ok, lok. cbn [pc t b mk]. split; [exact LU|]. intros E1' E2'.
+      pose proof (bwf_le _ _ _ _ (t_bwf _ TI)). pose proof (bt_le_Ls (lkind (pc (thr (vw (tb y)) 0%nat))) (bot (vw (tb y)))).
+      unfold Ls. lia.
+  - (* TGet *)
+    destruct (lstep_nolog (iv y) u) as (E1 & E2 & E3); [right; exact Hpc|]. rewrite E1, E2, E3.
+    assert (Ev : vw (tstep true (tb y) u) =
+                 set_thr (base (iv y)) u (mk TCas (b (thr (vw (tb y)) u)) (t (thr (vw (tb y)) u)) (a (thr (vw (tb y)) u))
+                    (na (thr (vw (tb y)) u)) (i (thr (vw (tb y)) u)) (arg (thr (vw (tb y)) u))
+                    (get (marrs (tb y) (a (thr (vw (tb y)) u))) (t (thr (vw (tb y)) u)))
+                    (prog (thr (vw (tb y)) u)) (opi (thr (vw (tb y)) u)))).
+    { unfold tstep. destruct u; [congruence|]. cbv zeta. rewrite Hpc. reflexivity. }
+    rewrite Ev. apply linv_private; auto; cbn [iv base pc mk]; try (rewrite Hpc; discriminate); try discriminate;
+      try (rewrite Hpc; reflexivity).
+    apply local_step; auto.
+    + rewrite Hpc. reflexivity.
+    + intros _. split; [exact Logic.I|]. cbn [prog mk]. apply steals_of; auto.
+    + unfold local_ok, lok. cbn [pc t b a rv mk]. destruct LU as (U1 & U2 & U3 & U4).
+      repeat split; auto; try (apply U4; auto).
+      destruct (U4 H) as [_ U5]. destruct (F H) as [F1 _]. unfold agree in F1. rewrite F1. exact U5.
+Qed.
+
+Theorem treach_inv l start progs y :
+  owner_only progs -> treach true l start progs y ->
+  LInv (tokens (nth 0 progs [])) (iv y) /\ TInv (tb y).
+Proof.
+  intros O R. induction R as [|y u R [IL IT]|y R [IL IT]].
+  - split; [|apply drained_tinv]. apply (ireach_linv l start progs (iinit l start progs) O). constructor.
+  - split; [apply tlstep_linv; auto|]. cbn [tlstep tb]. apply tstep_tinv; auto. apply (l_inv _ _ IL).
+  - split.
+    + unfold tlflush, iv. cbn [tb tpl tsl tol]. rewrite vw_flush. exact IL.
+    + cbn [tlflush tb]. apply flush_tinv; auto. apply (l_inv _ _ IL).
+Qed.
+
+(* the statements used by Properties_C02_deque.v *)
+Lemma tso_exactly_once l start progs y :
+  owner_only progs -> treach true l start progs y ->
+  (forall v, (cnt (tsl y) v + cnt (tol y) v <= cnt (tpl y) v)%nat) /\
+  (exists rest, Permutation (tpl y) (tsl y ++ tol y ++ rest)) /\
+  (exists later, tokens (nth 0 progs []) = tpl y ++ later) /\
+  (NoDup (tokens (nth 0 progs [])) -> NoDup (tsl y ++ tol y) /\ incl (tsl y ++ tol y) (tpl y)).
+Proof. intros O R. exact (exactly_once_of_linv _ (iv y) (proj1 (treach_inv l start progs y O R))). Qed.
+
+(* nothing is lost: pushed = returned + held + content of the owner's view;
+   the part of the view not yet in memory is exactly the store buffer, whose
+   bottom stores only go up (memory's bottom never exceeds the view's) *)
+Lemma tso_no_loss l start progs y :
+  owner_only progs -> treach true l start progs y ->
+  Permutation (tpl y) (tsl y ++ tol y ++ held (vw (tb y)) ++ content (vw (tb y))) /\
+  mbot (tb y) <= bot (vw (tb y)) /\
+  (buf (tb y) = [] -> mbot (tb y) = bot (vw (tb y)) /\
+                      forall k sl, dat (marrs (tb y) k) sl = dat (arrs (vw (tb y)) k) sl).
+Proof.
+  intros O R. destruct (treach_inv l start progs y O R) as [IL IT].
+  split; [exact (proj1 (no_loss_of_linv _ (iv y) IL))|]. split.
+  - apply (bwf_le _ _ _ _ (t_bwf _ IT)).
+  - intros E. pose proof (t_bot _ IT) as B. pose proof (t_dat _ IT) as D. rewrite E in *. cbn in B, D.
+    split; auto.
+Qed.
